@@ -459,6 +459,22 @@ Definition step (s : st) (o : op) : st * res :=
 (* the predicate that identifies the histories of finding F40 *)
 Definition lost_any (s : st) : bool := negb (andb (is_nil (lost_calls s)) (is_nil (lost_cancels s))).
 
+Definition landed_after_loop_end (ops : list op) : bool := lost_any (final step (init true true true) ops).
+Definition no_land_after_loop_end (ops : list op) : bool := negb (landed_after_loop_end ops).
+
+(* the per-call future in the vocabulary of concurrent.futures.  SRunning is listed for completeness: _call_func
+   only ever calls set_running_or_notify_cancel() on a cancelled future, so the state is never entered. *)
+Inductive fstate := SPending | SRunning | SCancelled | SCancelledNotified | SFinished.
+Definition fut_state (c : call) : fstate :=
+  match c_fut c with
+  | CPending => SPending
+  | CCancelled => if c_notified c then SCancelledNotified else SCancelled
+  | _ => SFinished
+  end.
+(* what concurrent.futures.wait() / as_completed() report as done *)
+Definition reported_done (c : call) : bool :=
+  match fut_state c with SCancelledNotified | SFinished => true | _ => false end.
+
 (* ---------- observations (what the harness compares after every step) ---------- *)
 Definition res_code (r : res) : Z :=
   match r with
